@@ -45,6 +45,17 @@ M = [
  ("m53-shared-label-temp-file", "snapshots.go", "	file := metaFile(s.snaps.dir, s.meta.index) + \".tmp\"", "	file := filepath.Join(s.snaps.dir, \"meta.tmp\")", "C15"),
  ("m54-no-log-reset-on-open", "storage.go", "	if s.log.LastIndex() < s.snaps.index {", "	if s.log.LastIndex() < s.snaps.index && false {", "C10"),
  ("m55-old-removal-shuts-down-again", "config.go", "		if r.shutdownOnRemove && wasMember && r.configs.Latest.Index != r.removedAtStart {", "		if r.shutdownOnRemove && wasMember {", "C17"),
+ ("m56-segment-created-under-final-name", "log/util.go", "	temp := name + \".tmp\"", "	temp := name", "C14"),
+ ("m57-only-short-log-is-reset-on-open", "storage.go", "		stale = term != s.snaps.term", "		stale = term != s.snaps.term && false", "C10"),
+ ("m58-restore-after-log-cleared", "rpc.go", "	r.fsm.ch <- fsmRestoreReq{r.fsmRestoredCh}\n	if err := <-r.fsmRestoredCh; err != nil {\n		return unexpectedErr, err\n	}\n\n	discardLog := true", "	defer func() { r.fsm.ch <- fsmRestoreReq{r.fsmRestoredCh} }()\n\n	discardLog := true", "C15"),
+ ("m59-deposed-leader-keeps-replicating", "rpc.go", "	if wasLeader && r.ldr != nil {\n		r.ldr.release()\n	}", "	_ = wasLeader", "C15"),
+ ("m60-status-points-into-live-state", "task.go", "				since := repl.status.noContact\n				unreachable = &since", "				unreachable = &repl.status.noContact", "C15"),
+ ("m61-open-counts-user-late", "snapshots.go", "	s.usedMu.Lock()\n	index, _ := s.latest()\n	s.used[index]++\n	s.usedMu.Unlock()\n	snap, err := s.openAt(index)", "	index, _ := s.latest()\n	snap, err := s.openAt(index)\n	s.usedMu.Lock()\n	s.used[index]++\n	s.usedMu.Unlock()", "C15"),
+ ("m62-refused-handshake-resets-timer", "rpc.go", "		return r.cid == req.cid && r.nid == req.nid && req.src == r.leader", "		return req.src == r.leader", "C20"),
+ ("m63-stale-timeout-now-obeyed", "rpc.go", "		if req.term < r.term {\n			// (held up somewhere: the transfer it belongs to is over)\n			return staleTerm, nil\n		}\n", "", "C16"),
+ ("m64-config-update-replaced", "leader.go", "			if u.config == nil {\n				u.config = pending.config\n			}", "			_ = pending", "C17"),
+ ("m65-snapshot-send-error-ignored", "replication.go", "			if err := r.sendInstallSnapReq(c, req); err != nil {\n				return err\n			}\n			continue", "			if err := r.sendInstallSnapReq(c, req); err == nil {\n				continue\n			}", "C15"),
+ ("m66-round-keeps-end-time", "changeconfig.go", "	r.Ordinal, r.Start, r.End, r.LastIndex = r.Ordinal+1, time.Now(), time.Time{}, lastIndex", "	r.Ordinal, r.Start, r.LastIndex = r.Ordinal+1, time.Now(), lastIndex", "C11"),
  ("m38-swap-fields", "messages.go", "	if req.lastLogIndex, err = readUint64(r); err != nil {\n		return err\n	}\n	if req.lastLogTerm, err = readUint64(r); err != nil {", "	if req.lastLogTerm, err = readUint64(r); err != nil {\n		return err\n	}\n	if req.lastLogIndex, err = readUint64(r); err != nil {", "C18"),
  ("m40-commit-regress", "rpc.go", "		term == req.term && // don't commit any entry, until leader has committed an entry with his term\n		index > r.commitIndex // haven't we committed yet", "		term == req.term // don't commit any entry, until leader has committed an entry with his term", "C19"),
  ("m41-identity-and", "rpc.go", "		if r.cid != req.cid || r.nid != req.nid {", "		if r.cid != req.cid && r.nid != req.nid {", "C20"),
